@@ -68,6 +68,8 @@ class Mirror:
             import sympy
             # amounts whose nsimplify reading is the rational itself (nsimplify may turn other rationals
             # into algebraic approximations; that reading is C02's 'taken to 15 significant digits')
+            if r.random() < 0.25:
+                return r.randint(0, 10**6)          # a plain Python int is an exact amount too
             while True:
                 q = sympy.Rational(r.randint(0, 10**6), r.choice([1, 2, 4, 10, 1000]))
                 if sympy.nsimplify(q) == q:
